@@ -564,7 +564,10 @@ static void DisasmIterator(OneChunk const* pChunk, Boolean IsData, void* pUser) 
         }
         fputc('\n', pData->pDestFile);
 
-        Address += Info.CodeLen;
+        /* nothing decoded (e.g. a vector running past the end of the image):
+           still move on */
+
+        Address += Info.CodeLen ? Info.CodeLen : 1;
     }
 }
 
